@@ -236,6 +236,32 @@ class M(Hooks):
             if st_.card_burning_status and not inst.burns:
                 self.v('deal_before_burn', 'board', repr(op))
             inst.board += len(op.cards)
+            if inst.nb > 1 and not inst.fallback:
+                # several boards are filled one after the other: a board
+                # receives this street's cards only once the boards before it
+                # have all of theirs
+                try:
+                    same = s.board_count == s.starting_board_count
+                    lens = [len(list(s.get_board_cards(j)))
+                            for j in s.board_indices] if same else None
+                except Exception as e:  # noqa: BLE001
+                    from ..engine import is_engine_exception
+                    if not is_engine_exception(e):
+                        raise
+                    lens = None
+                if lens:
+                    before = sum(x.board_dealing_count
+                                 for x in s.streets[:inst.si])
+                    full = before + st_.board_dealing_count
+                    shape_ok = all(before <= x <= full for x in lens) and \
+                        all(lens[j] == full or all(
+                            y == before for y in lens[j + 1:])
+                            for j in range(len(lens)))
+                    if not shape_ok:
+                        self.v('boards_not_filled_in_order', '',
+                               f'after {op!r} the boards hold {lens} cards'
+                               f' ({before} before this street, {full} when'
+                               f' it is complete)')
         elif k == 'stand_pat_or_discard':
             i = op.player_index
             if not st_.draw_status:
@@ -274,6 +300,23 @@ class M(Hooks):
             for si in range(s.street_index + 1):
                 nb_cards += s.streets[si].board_dealing_count
             # (fall-back streets add to boards and are covered per instance)
+            if not self.flags & {'fallback_to_board'} and nb_cards:
+                # each board - not only all boards together - holds exactly
+                # the community cards prescribed so far
+                try:
+                    per = [len(list(s.get_board_cards(j)))
+                           for j in s.board_indices]
+                except Exception as e:  # noqa: BLE001
+                    from ..engine import is_engine_exception
+                    if not is_engine_exception(e):
+                        raise
+                    per = None
+                    self.v('board_accessor_raised', '', repr(e))
+                if per is not None and any(x != nb_cards for x in per):
+                    self.v('board_incomplete_at_betting', '',
+                           f'street {s.street_index}: boards hold {per}'
+                           f' cards, {nb_cards} prescribed so far;'
+                           f' board_cards {s.board_cards}')
 
 
 def budget(tier):
